@@ -12,8 +12,8 @@ for EVERY change of units σ = (M, L, T, Θ) > 0, EVERY real parameter set and E
     field (sp σ p) (L r) (T t) = scale σ d_field (field p r t)      for every returned field,
     leaf  (sp σ p) (L r) (T t) = leaf p r t ,   outcome likewise     (same branch of the tree).
 
-`sp σ` re-expresses each parameter according to the HAND TABLE of its dimension that is
-written next to each `…SP` definition, quoted from the solver's docstring.  Common to all
+`sp σ` re-expresses each parameter according to the HAND TABLE of its dimension
+(`EPV/Spec/UnitsHydro.lean`, quoted from the solver's docstring).  Common to all
 Coggeshall solvers: the equation of state p = Γ ρ T gives [Γ] = L² T⁻² Θ⁻¹; γ, the geometry
 flag and the exponents b, α, β are pure numbers; the symbols `a_rad`, `c_light`, `lam0_`,
 `alpha_`, `beta_` of the generated structures belong to the derived heat-flux quantity of
@@ -23,7 +23,8 @@ EXCLUDED, as the property says ("Coggeshall solutions without built-in radiation
 constants"): Cog10, Cog13, Cog14, Cog16 and Cog17 hard-wire `c = 2.997e10` [cm/s] and
 `a = 1.3720e+02` [erg cm⁻³ eV⁻⁴] in `_run` and therefore require CGS-eV units.
 
-NOT covariant as they stand (theorem for the part that holds + `finding_…` for the defect):
+NOT covariant as they stand (theorem for the part that holds + `finding_…` for the defect, one
+module `Finding<Solver>.lean` each, so that a repair of one defect breaks only its own module):
   * Noh2, Noh2Cog   — the collapse time is the literal 1 (`if t >= 1`, `(1 - t)`): the unit of
                       time is fixed by the problem statement u(r,0) = -r; covariant for M, L.
                       Noh2Cog moreover fixes Γ = 1, so its temperature is an energy per mass.
@@ -35,68 +36,28 @@ NOT covariant as they stand (theorem for the part that holds + `finding_…` for
                       parameter help strings give (b pure, v a velocity).
 -/
 import EPV.Gen.Noh
-import EPV.Gen.Noh2
-import EPV.Gen.Noh2Cog
 import EPV.Gen.Cog1
 import EPV.Gen.Cog2
 import EPV.Gen.Cog3
 import EPV.Gen.Cog4
 import EPV.Gen.Cog5
 import EPV.Gen.Cog6
-import EPV.Gen.Cog7
 import EPV.Gen.Cog8
 import EPV.Gen.Cog9
 import EPV.Gen.Cog11
 import EPV.Gen.Cog12
 import EPV.Gen.Cog18
 import EPV.Gen.Cog19
-import EPV.Gen.Cog20
 import EPV.Gen.Cog21
-import EPV.Lemmas.Units
-import EPV.Tactics
+import EPV.Lemmas.UnitsHydro
 
 set_option linter.all false
 
-open EPV EPV.Gen EPV.Spec
+open EPV EPV.Gen EPV.Spec EPV.Spec.UnitsHydro
 
 namespace EPV.C08
 
-/-- C08 for a solver returning (position, density, velocity, pressure, specific internal energy) -/
-def CovariantGas {P : Type} (sp : Scaling → P → P) (A : Scaling → P → ℝ → ℝ → Prop)
-    (pos ρ u pr e : P → ℝ → ℝ → ℝ) (leaf : P → ℝ → ℝ → ℕ) (out : P → ℝ → ℝ → EPV.Out) : Prop :=
-  UnitCovariant sp pos Dim.length A ∧ UnitCovariant sp ρ Dim.density A ∧ UnitCovariant sp u Dim.velocity A ∧
-  UnitCovariant sp pr Dim.pressure A ∧ UnitCovariant sp e Dim.sie A ∧
-  SameBranch sp leaf A ∧ SameBranch sp out A
-
-/-- C08 for a Coggeshall solver: (position, density, velocity, temperature, pressure, sie) -/
-def CovariantCog {P : Type} (sp : Scaling → P → P) (A : Scaling → P → ℝ → ℝ → Prop)
-    (pos ρ u T pr e : P → ℝ → ℝ → ℝ) (leaf : P → ℝ → ℝ → ℕ) (out : P → ℝ → ℝ → EPV.Out) : Prop :=
-  UnitCovariant sp pos Dim.length A ∧ UnitCovariant sp ρ Dim.density A ∧ UnitCovariant sp u Dim.velocity A ∧
-  UnitCovariant sp T Dim.temperature A ∧ UnitCovariant sp pr Dim.pressure A ∧ UnitCovariant sp e Dim.sie A ∧
-  SameBranch sp leaf A ∧ SameBranch sp out A
-
-/-- one field (dimensional analysis of the traced expression) or one branch selector -/
-macro "units_field " sp:ident : tactic => `(tactic|
-  first
-  | (apply IsScaled.iff_eq.mp
-     simp only [epv_tree, epv_cond, epv_leaf, $sp:ident, mul_zero, zero_mul, zero_div, mul_one, one_mul]
-     units_goal)
-  | (simp only [epv_tree, epv_cond, $sp:ident] <;> units_branch))
-
-macro "units_cog " sp:ident : tactic => `(tactic|
-  (unfold CovariantCog UnitCovariant SameBranch
-   refine ⟨?_, ?_, ?_, ?_, ?_, ?_, ?_, ?_⟩ <;> intro σ p r t _ <;> units_field $sp))
-
-macro "units_gas " sp:ident : tactic => `(tactic|
-  (unfold CovariantGas UnitCovariant SameBranch
-   refine ⟨?_, ?_, ?_, ?_, ?_, ?_, ?_⟩ <;> intro σ p r t _ <;> units_field $sp))
-
 /-! ### Noh -/
-
-/-- Noh: "rho0: density", "u0: incident velocity (negative)"; γ and the geometry flag are pure numbers -/
-noncomputable def nohSP (σ : Scaling) (p : Noh.P) : Noh.P :=
-  { p with rho0 := scale σ Dim.density p.rho0, u0 := scale σ Dim.velocity p.u0 }
-
 theorem noh_units : CovariantGas nohSP Everywhere Noh.position Noh.density Noh.velocity Noh.pressure
     Noh.specific_internal_energy Noh.leaf Noh.outcome := by
   units_gas nohSP
@@ -105,417 +66,58 @@ theorem noh_units : CovariantGas nohSP Everywhere Noh.position Noh.density Noh.v
 theorem noh_units_admissible (σ : Scaling) (p : Noh.P) : (nohSP σ p).u0 < 0 ↔ p.u0 < 0 := by
   simp only [nohSP]
   units
-
-/-! ### Noh2, Noh2Cog: covariant for mass and length; the unit of time is hard-wired -/
-
-/-- changes of units that leave the unit of time alone -/
-def FixedTime {P : Type} : Scaling → P → ℝ → ℝ → Prop := fun σ _ _ _ => σ.T = 1
-
-/-- Noh2: "rho0: initial density", "e0: initial internal energy" (per mass) -/
-noncomputable def noh2SP (σ : Scaling) (p : Noh2.P) : Noh2.P :=
-  { p with rho0 := scale σ Dim.density p.rho0, e0 := scale σ Dim.sie p.e0 }
-
-theorem factor_eq_of_fixedTime {σ : Scaling} (h : σ.T = 1) {d₁ d : Dim}
-    (hm : d₁.m = d.m) (hl : d₁.l = d.l) (hθ : d₁.θ = d.θ) : factor σ d₁ = factor σ d := by
-  simp only [factor, h, Real.one_rpow, hm, hl, hθ]
-
-theorem IsScaled.cast_factor {σ : Scaling} {d₁ d : Dim} {x' x : ℝ} (h : IsScaled σ d₁ x' x)
-    (e : factor σ d₁ = factor σ d) : IsScaled σ d x' x := by
-  unfold IsScaled scale at *
-  rw [h, e]
-
-/-- dimensional analysis when only the mass-, length- and temperature-exponents have to agree -/
-macro "units_fixed_time " h:ident : tactic => `(tactic|
-  (refine IsScaled.cast_factor (d₁ := ?_) ?_ (factor_eq_of_fixedTime $h ?_ ?_ ?_)
-   rotate_left
-   units
-   all_goals (simp [Dim.length, Dim.density, Dim.velocity, Dim.pressure, Dim.sie, Dim.temperature] <;> ring)))
-
-macro "units_field_fixed_time " sp:ident h:ident : tactic => `(tactic|
-  first
-  | (apply IsScaled.iff_eq.mp
-     simp only [epv_tree, epv_cond, epv_leaf, $sp:ident, mul_zero, zero_mul, zero_div, mul_one, one_mul, $h:ident]
-     first
-     | (with_reducible exact IsScaled.zero)
-     | units_fixed_time $h)
-  | (simp only [epv_tree, epv_cond, $sp:ident, $h:ident, one_mul] <;> units_branch))
-
-/-- **partial**: Noh2 is covariant under every change of the units of mass and length.  Missing from the
-property: changes of the unit of time, see `finding_noh2_time_unit`. -/
-theorem noh2_units_partial : CovariantGas noh2SP FixedTime Noh2.position Noh2.density Noh2.velocity Noh2.pressure
-    Noh2.specific_internal_energy Noh2.leaf Noh2.outcome := by
-  unfold CovariantGas UnitCovariant SameBranch
-  refine ⟨?_, ?_, ?_, ?_, ?_, ?_, ?_⟩ <;> intro σ p r t h <;> replace h : σ.T = 1 := h <;>
-    units_field_fixed_time noh2SP h
-
-/-- non-vacuity: there are changes of units with a fixed unit of time -/
-example : ∃ σ : Scaling, σ.T = 1 ∧ σ.M ≠ 1 ∧ σ.L ≠ 1 :=
-  ⟨⟨2, 3, 1, 1, by norm_num, by norm_num, by norm_num, by norm_num⟩, rfl, by norm_num, by norm_num⟩
-
-/-- **Finding** (C08 is false for Noh2 as quantified): the collapse time is the literal `1`.  Re-expressing the
-default problem at t = 1/2 with a time unit half as long (T = 2) asks for t = 1, which the solver rejects
-(`ValueError`) although the original request is valid. -/
-theorem finding_noh2_time_unit :
-    ¬ SameBranch noh2SP Noh2.outcome (Everywhere : Scaling → Noh2.P → ℝ → ℝ → Prop) := by
-  intro h
-  have := h ⟨1, 1, 2, 1, by norm_num, by norm_num, by norm_num, by norm_num⟩ ⟨1, 5 / 3, 3, 1⟩ 1 (1 / 2) trivial
-  simp only [epv_tree, epv_cond, noh2SP] at this
-  norm_num at this
-  exact absurd this (by decide)
-
-/-- Noh2Cog (Noh2 through Cog1 with the class constants b = 0, Γ = 1): "rho0: initial density", "e0: initial
-internal energy".  Because Γ = 1 is hard-wired, the returned `temperature` T = e₀ (γ-1) (1-t)^(…) is an energy
-per mass. -/
-noncomputable def noh2cogSP (σ : Scaling) (p : Noh2Cog.P) : Noh2Cog.P :=
-  { p with rho0 := scale σ Dim.density p.rho0, e0 := scale σ Dim.sie p.e0 }
-
-/-- **partial**: Noh2Cog is covariant under every change of the units of mass and length, with the returned
-`temperature` read as a specific energy (Γ = 1 is a class constant).  Missing: changes of the unit of time
-(the literal collapse time 1, as for Noh2) and an independent unit of temperature. -/
-theorem noh2cog_units_partial :
-    UnitCovariant noh2cogSP Noh2Cog.position Dim.length FixedTime ∧
-    UnitCovariant noh2cogSP Noh2Cog.density Dim.density FixedTime ∧
-    UnitCovariant noh2cogSP Noh2Cog.velocity Dim.velocity FixedTime ∧
-    UnitCovariant noh2cogSP Noh2Cog.temperature Dim.sie FixedTime ∧
-    UnitCovariant noh2cogSP Noh2Cog.pressure Dim.pressure FixedTime ∧
-    UnitCovariant noh2cogSP Noh2Cog.specific_internal_energy Dim.sie FixedTime ∧
-    SameBranch noh2cogSP Noh2Cog.leaf FixedTime ∧ SameBranch noh2cogSP Noh2Cog.outcome FixedTime := by
-  unfold UnitCovariant SameBranch
-  refine ⟨?_, ?_, ?_, ?_, ?_, ?_, ?_, ?_⟩ <;> intro σ p r t h <;> replace h : σ.T = 1 := h <;>
-    units_field_fixed_time noh2cogSP h
-
-/-- **Finding**: the same hard-wired collapse time in Noh2Cog -/
-theorem finding_noh2cog_time_unit :
-    ¬ SameBranch noh2cogSP Noh2Cog.outcome (Everywhere : Scaling → Noh2Cog.P → ℝ → ℝ → Prop) := by
-  intro h
-  have := h ⟨1, 1, 2, 1, by norm_num, by norm_num, by norm_num, by norm_num⟩ ⟨1, 5 / 3, 3, 1⟩ 1 (1 / 2) trivial
-  simp only [epv_tree, epv_cond, noh2cogSP] at this
-  norm_num at this
-  exact absurd this (by decide)
-
 /-! ### Coggeshall solutions whose constants are all parameters -/
-
-/-- Cog1: ρ = ρ₀ r^b t^(-b-k-1),  T = T₀ r^(-b) t^(b-(γ-1)(k+1))  ⇒  [ρ₀] = [ρ] L^(-b) T^(b+k+1),  [T₀] = Θ L^b T^(-(b-(γ-1)(k+1))) -/
-noncomputable def cog1SP (σ : Scaling) (p : Cog1.P) : Cog1.P :=
-  { p with
-    Gamma := scale σ Dim.gruneisen p.Gamma
-    rho0 := scale σ ⟨1, -3 - p.b, p.b + (p.geometry - 1) + 1, 0⟩ p.rho0
-    temp0 := scale σ ⟨0, p.b, -(p.b - (p.gamma - 1) * ((p.geometry - 1) + 1)), 1⟩ p.temp0 }
 
 theorem cog1_units : CovariantCog cog1SP Everywhere Cog1.position Cog1.density Cog1.velocity Cog1.temperature
     Cog1.pressure Cog1.specific_internal_energy Cog1.leaf Cog1.outcome := by
   units_cog cog1SP
 
-/-- Cog2: ρ = ρ₀ r^b t^(c₂), c₂ = -2(b+k+1)/[2+(γ-1)(k+1)]  ⇒  [ρ₀] = [ρ] L^(-b) T^(-c₂);  u, T are built from r/t and Γ only -/
-noncomputable def cog2SP (σ : Scaling) (p : Cog2.P) : Cog2.P :=
-  { p with
-    Gamma := scale σ Dim.gruneisen p.Gamma
-    rho0 := scale σ ⟨1, -3 - p.b, -((-2 * (p.b + (p.geometry - 1) + 1)) / (2 + (p.gamma - 1) * ((p.geometry - 1) + 1))), 0⟩ p.rho0 }
-
 theorem cog2_units : CovariantCog cog2SP Everywhere Cog2.position Cog2.density Cog2.velocity Cog2.temperature
     Cog2.pressure Cog2.specific_internal_energy Cog2.leaf Cog2.outcome := by
   units_cog cog2SP
-
-/-- Cog3: ρ = ρ₀ r^(v-k-1) e^(b t),  u = -(b/v) r,  T = b² r² / (v² Γ (k-v-1)):  the exponent b t must be a pure number, so
-[b] = T⁻¹, and v is an exponent, so it is a pure number;  [ρ₀] = [ρ] L^(-(v-k-1)).  (The parameter help strings say
-"b: free dimensionless parameter", "v: free parameter with dimensions of velocity" — see `finding_cog3_documented_dimensions`.) -/
-noncomputable def cog3SP (σ : Scaling) (p : Cog3.P) : Cog3.P :=
-  { p with
-    Gamma := scale σ Dim.gruneisen p.Gamma
-    b := scale σ Dim.rate p.b
-    rho0 := scale σ ⟨1, -3 - (p.v - (p.geometry - 1) - 1), 0, 0⟩ p.rho0 }
 
 theorem cog3_units : CovariantCog cog3SP Everywhere Cog3.position Cog3.density Cog3.velocity Cog3.temperature
     Cog3.pressure Cog3.specific_internal_energy Cog3.leaf Cog3.outcome := by
   units_cog cog3SP
 
-/-- Cog4: ρ = ρ₀ r^(-2k/(γ+1)),  u = u₀ r^(-k(γ-1)/(γ+1))  ⇒  [ρ₀] = [ρ] L^(2k/(γ+1)),  [u₀] = L T⁻¹ L^(k(γ-1)/(γ+1)) -/
-noncomputable def cog4SP (σ : Scaling) (p : Cog4.P) : Cog4.P :=
-  { p with
-    Gamma := scale σ Dim.gruneisen p.Gamma
-    rho0 := scale σ ⟨1, -3 - 2 * (-(p.geometry - 1) / (p.gamma + 1)), 0, 0⟩ p.rho0
-    u0 := scale σ ⟨0, 1 - (-(p.geometry - 1) * (p.gamma - 1)) / (p.gamma + 1), -1, 0⟩ p.u0 }
-
 theorem cog4_units : CovariantCog cog4SP Everywhere Cog4.position Cog4.density Cog4.velocity Cog4.temperature
     Cog4.pressure Cog4.specific_internal_energy Cog4.leaf Cog4.outcome := by
   units_cog cog4SP
-
-/-- Cog5: ρ = ρ₀ r⁻²,  u = u₀ t,  T = u₀ r / Γ  ⇒  [ρ₀] = M L⁻¹,  [u₀] = L T⁻² -/
-noncomputable def cog5SP (σ : Scaling) (p : Cog5.P) : Cog5.P :=
-  { p with
-    Gamma := scale σ Dim.gruneisen p.Gamma
-    rho0 := scale σ ⟨1, -1, 0, 0⟩ p.rho0
-    u0 := scale σ ⟨0, 1, -2, 0⟩ p.u0 }
 
 theorem cog5_units : CovariantCog cog5SP Everywhere Cog5.position Cog5.density Cog5.velocity Cog5.temperature
     Cog5.pressure Cog5.specific_internal_energy Cog5.leaf Cog5.outcome := by
   units_cog cog5SP
 
-/-- Cog6: ρ = ρ₀ r^b / (τ²-t²)^((k+1+b)/2)  ⇒  [ρ₀] = [ρ] L^(-b) T^(k+1+b);  "tau: free parameter with dimensions of time" -/
-noncomputable def cog6SP (σ : Scaling) (p : Cog6.P) : Cog6.P :=
-  { p with
-    Gamma := scale σ Dim.gruneisen p.Gamma
-    tau := scale σ Dim.time p.tau
-    rho0 := scale σ ⟨1, -3 - p.b, (p.geometry - 1) + 1 + p.b, 0⟩ p.rho0 }
-
 theorem cog6_units : CovariantCog cog6SP Everywhere Cog6.position Cog6.density Cog6.velocity Cog6.temperature
     Cog6.pressure Cog6.specific_internal_energy Cog6.leaf Cog6.outcome := by
   units_cog cog6SP
-
-/-- Cog8: ρ = ρ₀ r^(c₁) t^(-(k+1)-c₁),  T = T₀ r^(-c₁) t^((1-γ)(k+1)+c₁),  c₁ = (k-1)/(β-α+4);  α, β "dimensionless" -/
-noncomputable def cog8SP (σ : Scaling) (p : Cog8.P) : Cog8.P :=
-  { p with
-    Gamma := scale σ Dim.gruneisen p.Gamma
-    rho0 := scale σ ⟨1, -3 - ((p.geometry - 1) - 1) / (p.beta - p.alpha + 4), ((p.geometry - 1) + 1) + ((p.geometry - 1) - 1) / (p.beta - p.alpha + 4), 0⟩ p.rho0
-    temp0 := scale σ ⟨0, ((p.geometry - 1) - 1) / (p.beta - p.alpha + 4), -((1 - p.gamma) * ((p.geometry - 1) + 1) + ((p.geometry - 1) - 1) / (p.beta - p.alpha + 4)), 1⟩ p.temp0 }
 
 theorem cog8_units : CovariantCog cog8SP Everywhere Cog8.position Cog8.density Cog8.velocity Cog8.temperature
     Cog8.pressure Cog8.specific_internal_energy Cog8.leaf Cog8.outcome := by
   units_cog cog8SP
 
-/-- Cog9: ρ = ρ₀ r^(-(2β+k+7)/α) t^(c₄),  c₄ = -2[α(k+1)-2β-k-7]/(α[2+(γ-1)(k+1)])  ⇒  [ρ₀] = [ρ] L^((2β+k+7)/α) T^(-c₄) -/
-noncomputable def cog9SP (σ : Scaling) (p : Cog9.P) : Cog9.P :=
-  { p with
-    Gamma := scale σ Dim.gruneisen p.Gamma
-    rho0 := scale σ ⟨1, -3 - (-(2 * p.beta + (p.geometry - 1) + 7)) / p.alpha,
-      -(((-2 * (p.alpha * ((p.geometry - 1) + 1) - (2 * p.beta + (p.geometry - 1) + 7))) / p.alpha) / (2 + (p.gamma - 1) * ((p.geometry - 1) + 1))), 0⟩ p.rho0 }
-
 theorem cog9_units : CovariantCog cog9SP Everywhere Cog9.position Cog9.density Cog9.velocity Cog9.temperature
     Cog9.pressure Cog9.specific_internal_energy Cog9.leaf Cog9.outcome := by
   units_cog cog9SP
-
-/-- Cog11: ρ = ρ₀ r^((γ-1)(k+1)-2) t^(1-k-(γ-1)(k+1)),  T = T₀ r^(2-(γ-1)(k+1)) t⁻² -/
-noncomputable def cog11SP (σ : Scaling) (p : Cog11.P) : Cog11.P :=
-  { p with
-    Gamma := scale σ Dim.gruneisen p.Gamma
-    rho0 := scale σ ⟨1, -3 - ((p.gamma - 1) * ((p.geometry - 1) + 1) - 2), -(1 - (p.geometry - 1) - (p.gamma - 1) * ((p.geometry - 1) + 1)), 0⟩ p.rho0
-    temp0 := scale σ ⟨0, -(2 - (p.gamma - 1) * ((p.geometry - 1) + 1)), 2, 1⟩ p.temp0 }
 
 theorem cog11_units : CovariantCog cog11SP Everywhere Cog11.position Cog11.density Cog11.velocity Cog11.temperature
     Cog11.pressure Cog11.specific_internal_energy Cog11.leaf Cog11.outcome := by
   units_cog cog11SP
 
-/-- Cog12: ρ = ρ₀ r^(-2k/(γ+1)),  u = u₀ r^(k(1-γ)/(1+γ))  (no radiation constant enters the returned fields) -/
-noncomputable def cog12SP (σ : Scaling) (p : Cog12.P) : Cog12.P :=
-  { p with
-    Gamma := scale σ Dim.gruneisen p.Gamma
-    rho0 := scale σ ⟨1, -3 - (-2 * (p.geometry - 1)) / (p.gamma + 1), 0, 0⟩ p.rho0
-    u0 := scale σ ⟨0, 1 - ((p.geometry - 1) * (1 - p.gamma)) / (1 + p.gamma), -1, 0⟩ p.u0 }
-
 theorem cog12_units : CovariantCog cog12SP Everywhere Cog12.position Cog12.density Cog12.velocity Cog12.temperature
     Cog12.pressure Cog12.specific_internal_energy Cog12.leaf Cog12.outcome := by
   units_cog cog12SP
-
-/-- Cog18: ρ = ρ₀ r^(c₁) (τ²-t²)^(c₃),  c₁ = -(2β+k+7)/α,  c₃ = -(k+1)/2 - c₁/2;  "tau: free parameter of dimension time" -/
-noncomputable def cog18SP (σ : Scaling) (p : Cog18.P) : Cog18.P :=
-  { p with
-    Gamma := scale σ Dim.gruneisen p.Gamma
-    tau := scale σ Dim.time p.tau
-    rho0 := scale σ ⟨1, -3 - (-(2 * p.beta + (p.geometry - 1) + 7)) / p.alpha,
-      -2 * ((-((p.geometry - 1) + 1)) / 2 - ((-(2 * p.beta + (p.geometry - 1) + 7)) / p.alpha) / 2), 0⟩ p.rho0 }
 
 theorem cog18_units : CovariantCog cog18SP Everywhere Cog18.position Cog18.density Cog18.velocity Cog18.temperature
     Cog18.pressure Cog18.specific_internal_energy Cog18.leaf Cog18.outcome := by
   units_cog cog18SP
 
-/-- Cog19: ρ₀ is a density, u₀ a velocity; shock at R = -(γ-1) u₀ t / 2 -/
-noncomputable def cog19SP (σ : Scaling) (p : Cog19.P) : Cog19.P :=
-  { p with
-    Gamma := scale σ Dim.gruneisen p.Gamma
-    rho0 := scale σ Dim.density p.rho0
-    u0 := scale σ Dim.velocity p.u0 }
-
 theorem cog19_units : CovariantCog cog19SP Everywhere Cog19.position Cog19.density Cog19.velocity Cog19.temperature
     Cog19.pressure Cog19.specific_internal_energy Cog19.leaf Cog19.outcome := by
   units_cog cog19SP
 
-/-- Cog21: ρ = (3/2) ρ₀ r⁻³,  T = T₀ r³,  shock at 2/(Γ T₀ t²)  ⇒  [ρ₀] = M,  [T₀] = Θ L⁻³ -/
-noncomputable def cog21SP (σ : Scaling) (p : Cog21.P) : Cog21.P :=
-  { p with
-    Gamma := scale σ Dim.gruneisen p.Gamma
-    rho0 := scale σ Dim.mass p.rho0
-    temp0 := scale σ ⟨0, -3, 0, 1⟩ p.temp0 }
-
 theorem cog21_units : CovariantCog cog21SP Everywhere Cog21.position Cog21.density Cog21.velocity Cog21.temperature
     Cog21.pressure Cog21.specific_internal_energy Cog21.leaf Cog21.outcome := by
   units_cog cog21SP
-
-/-! ### Cog3: the documented dimensions of `b` and `v` are not the ones the formulas have -/
-
-/-- Cog3 with the dimensions its parameter help strings state: "b: free dimensionless parameter",
-"v: free parameter with dimensions of velocity" -/
-noncomputable def cog3DocSP (σ : Scaling) (p : Cog3.P) : Cog3.P :=
-  { p with
-    Gamma := scale σ Dim.gruneisen p.Gamma
-    v := scale σ Dim.velocity p.v
-    rho0 := scale σ ⟨1, -3 - (p.v - (p.geometry - 1) - 1), 0, 0⟩ p.rho0 }
-
-/-- **Finding** (documentation): with the documented dimensions of b and v the velocity u = -(b/v) r is not
-covariant — doubling the unit of length (b = v = 1, r = 1) leaves the returned number at -1 instead of -2.
-`cog3_units` shows the formulas are consistent with [b] = T⁻¹ and v a pure number instead. -/
-theorem finding_cog3_documented_dimensions :
-    ¬ UnitCovariant cog3DocSP Cog3.velocity Dim.velocity (Everywhere : Scaling → Cog3.P → ℝ → ℝ → Prop) := by
-  intro h
-  have := h ⟨1, 2, 1, 1, by norm_num, by norm_num, by norm_num, by norm_num⟩
-    ⟨40, 0, 0, 1, 0, 0, 3, 0, 1, 1⟩ 1 0 trivial
-  simp [epv_tree, epv_leaf, cog3DocSP, scale, factor, Dim.velocity, Dim.gruneisen] at this <;> norm_num at this
-
-/-! ### Cog7: no input carries a mass -/
-
-/-- Cog7: "tau: free parameter" (it is subtracted from t: a time), "R0, Ri: free parameter with dimensions of
-length".  "Free parameters: b, k, τ, R₀, Rᵢ and Γ" — there is no density coefficient. -/
-noncomputable def cog7SP (σ : Scaling) (p : Cog7.P) : Cog7.P :=
-  { p with
-    Gamma := scale σ Dim.gruneisen p.Gamma
-    tau := scale σ Dim.time p.tau
-    R0 := scale σ Dim.length p.R0
-    Ri := scale σ Dim.length p.Ri }
-
-/-- γ of Cog7 as the code computes it, (k+3)/(k+1) -/
-noncomputable def cog7Gamma (p : Cog7.P) : ℝ := ((p.geometry - 1) + 3) / ((p.geometry - 1) + 1)
-
-/-- the time exponent of the coded Cog7 density, c₅ - c₃ - c₁ c₂ in the notation of `_run`;
-it is -1, -1, 0 for geometry = 1, 2, 3 (`cog7RhoT_values`) -/
-noncomputable def cog7RhoT (p : Cog7.P) : ℝ :=
-  ((((p.geometry - 1) + 1) * cog7Gamma p - 1 - p.b) / (cog7Gamma p - 1))
-    - (((p.geometry - 1) + 1) - p.b / cog7Gamma p)
-    - (2 - p.b / cog7Gamma p) * (1 / (cog7Gamma p - 1))
-
-theorem cog7RhoT_values (p : Cog7.P) :
-    (p.geometry = 1 → cog7RhoT p = -1) ∧ (p.geometry = 2 → cog7RhoT p = -1) ∧ (p.geometry = 3 → cog7RhoT p = 0) := by
-  refine ⟨fun h => ?_, fun h => ?_, fun h => ?_⟩ <;> simp only [cog7RhoT, cog7Gamma, h] <;> norm_num <;> ring
-
-/-- the dimension the coded Cog7 density really has: T^(cog7RhoT), no mass, no length -/
-theorem cog7_density_dimension (σ : Scaling) (p : Cog7.P) (r t : ℝ) :
-    Cog7.density (cog7SP σ p) (σ.L * r) (σ.T * t) = scale σ ⟨0, 0, cog7RhoT p, 0⟩ (Cog7.density p r t) := by
-  apply IsScaled.iff_eq.mp
-  simp only [epv_tree, epv_cond, epv_leaf, cog7SP, mul_zero, zero_mul, zero_div, mul_one, one_mul, cog7RhoT, cog7Gamma]
-  units_goal
-
-theorem cog7_pressure_dimension (σ : Scaling) (p : Cog7.P) (r t : ℝ) :
-    Cog7.pressure (cog7SP σ p) (σ.L * r) (σ.T * t) = scale σ ⟨0, 2, -2 + cog7RhoT p, 0⟩ (Cog7.pressure p r t) := by
-  apply IsScaled.iff_eq.mp
-  simp only [epv_tree, epv_cond, epv_leaf, cog7SP, mul_zero, zero_mul, zero_div, mul_one, one_mul, cog7RhoT, cog7Gamma]
-  units_goal
-
-/-- changes of units in which the unit of density is tied to the unit of time the way the coded Cog7
-normalisation demands: M L⁻³ = T^(cog7RhoT) -/
-def Cog7Tied : Scaling → Cog7.P → ℝ → ℝ → Prop := fun σ p _ _ => σ.M = σ.L ^ (3 : ℝ) * σ.T ^ cog7RhoT p
-
-theorem cog7_factor_tied {σ : Scaling} {p : Cog7.P} {r t : ℝ} (h : Cog7Tied σ p r t) (l τ : ℝ) :
-    factor σ ⟨0, l, τ + cog7RhoT p, 0⟩ = factor σ ⟨1, l - 3, τ, 0⟩ := by
-  have h : σ.M = σ.L ^ (3 : ℝ) * σ.T ^ cog7RhoT p := h
-  simp only [factor, Real.rpow_zero, Real.rpow_one, one_mul, mul_one, h, Real.rpow_add σ.hT, Real.rpow_sub σ.hL]
-  have := (Real.rpow_pos_of_pos σ.hL 3).ne'
-  field_simp
-
-/-- **partial**: Cog7 position, velocity, temperature and specific internal energy are covariant under every
-change of units and the branch is invariant; density and pressure are covariant only when the unit of density
-is tied to the unit of time (`Cog7Tied`).  Missing from the property: independent changes of the unit of mass,
-see `finding_cog7_no_mass_scale`. -/
-theorem cog7_units_partial :
-    UnitCovariant cog7SP Cog7.position Dim.length Everywhere ∧
-    UnitCovariant cog7SP Cog7.velocity Dim.velocity Everywhere ∧
-    UnitCovariant cog7SP Cog7.temperature Dim.temperature Everywhere ∧
-    UnitCovariant cog7SP Cog7.specific_internal_energy Dim.sie Everywhere ∧
-    SameBranch cog7SP Cog7.leaf Everywhere ∧ SameBranch cog7SP Cog7.outcome Everywhere ∧
-    UnitCovariant cog7SP Cog7.density Dim.density Cog7Tied ∧
-    UnitCovariant cog7SP Cog7.pressure Dim.pressure Cog7Tied := by
-  unfold UnitCovariant SameBranch
-  refine ⟨?_, ?_, ?_, ?_, ?_, ?_, ?_, ?_⟩ <;> intro σ p r t h
-  · units_field cog7SP
-  · units_field cog7SP
-  · units_field cog7SP
-  · units_field cog7SP
-  · units_field cog7SP
-  · units_field cog7SP
-  · rw [cog7_density_dimension, scale, scale]
-    have := cog7_factor_tied h 0 0
-    simp only [zero_add, zero_sub] at this
-    rw [this]; rfl
-  · rw [cog7_pressure_dimension, scale, scale]
-    have := cog7_factor_tied h 2 (-2)
-    norm_num at this
-    rw [this]; rfl
-
-/-- non-vacuity: tied changes of units exist for every parameter set -/
-example (p : Cog7.P) : ∃ σ : Scaling, Cog7Tied σ p 0 0 ∧ σ.T ≠ 1 :=
-  ⟨⟨(1 : ℝ) ^ (3 : ℝ) * (2 : ℝ) ^ cog7RhoT p, 1, 2, 1, by positivity, by norm_num, by norm_num, by norm_num⟩,
-    rfl, by norm_num⟩
-
-/-- **Finding** (C08 is false for Cog7 as quantified): a pure change of the unit of mass (M = 2) changes no
-input of Cog7, so the returned density cannot double.  Witness: b = 0, spherical, τ = 1, R₀ = 2, Rᵢ = 1, Γ = 1
-at r = 2, t = 3/5, where the density is positive. -/
-theorem finding_cog7_no_mass_scale :
-    ¬ UnitCovariant cog7SP Cog7.density Dim.density (Everywhere : Scaling → Cog7.P → ℝ → ℝ → Prop) := by
-  intro h
-  have h1 := h ⟨2, 1, 1, 1, by norm_num, by norm_num, by norm_num, by norm_num⟩
-    ⟨1, 2, 1, 0, 0, 0, 0, 0, 3, 0, 1⟩ 2 (3 / 5) trivial
-  rw [cog7_density_dimension] at h1
-  simp only [scale, factor, Dim.density, Real.one_rpow, Real.rpow_one, Real.rpow_zero, mul_one, one_mul] at h1
-  have hpos : 0 < Cog7.density ⟨1, 2, 1, 0, 0, 0, 0, 0, 3, 0, 1⟩ 2 (3 / 5) := by
-    simp only [epv_tree, epv_cond, epv_leaf]
-    split_ifs with hc
-    · norm_num at hc
-    norm_num
-    positivity
-  linarith
-
-/-! ### Cog20: the coded shock position is a length × time -/
-
-/-- Cog20: "a: free parameter with dimensions of inverse time"; ρ₀ a density, u₀ a velocity -/
-noncomputable def cog20SP (σ : Scaling) (p : Cog20.P) : Cog20.P :=
-  { p with
-    Gamma := scale σ Dim.gruneisen p.Gamma
-    rho0 := scale σ Dim.density p.rho0
-    u0 := scale σ Dim.velocity p.u0
-    a := scale σ Dim.rate p.a }
-
-/-- requests for which the re-expressed request happens to fall into the same region -/
-def Cog20SameRegion : Scaling → Cog20.P → ℝ → ℝ → Prop :=
-  fun σ p r t => Cog20.leaf (cog20SP σ p) (σ.L * r) (σ.T * t) = Cog20.leaf p r t
-
-macro "units_field_cog20" : tactic => `(tactic|
-  (apply IsScaled.iff_eq.mp
-   simp only [epv_tree]
-   split_ifs at * <;>
-   first
-   | (exact absurd (by assumption : (0 : ℕ) = 1) (by decide))
-   | (exact absurd (by assumption : (1 : ℕ) = 0) (by decide))
-   | (simp only [epv_cond, epv_leaf, cog20SP, mul_zero, zero_mul, zero_div, mul_one, one_mul]
-      units_goal)))
-
-/-- **partial**: inside each of its two regions every Cog20 field is covariant.  Missing from the property:
-the region itself is not invariant, see `finding_cog20_shock_position`. -/
-theorem cog20_units_partial :
-    UnitCovariant cog20SP Cog20.position Dim.length Cog20SameRegion ∧
-    UnitCovariant cog20SP Cog20.density Dim.density Cog20SameRegion ∧
-    UnitCovariant cog20SP Cog20.velocity Dim.velocity Cog20SameRegion ∧
-    UnitCovariant cog20SP Cog20.temperature Dim.temperature Cog20SameRegion ∧
-    UnitCovariant cog20SP Cog20.pressure Dim.pressure Cog20SameRegion ∧
-    UnitCovariant cog20SP Cog20.specific_internal_energy Dim.sie Cog20SameRegion := by
-  unfold UnitCovariant
-  refine ⟨?_, ?_, ?_, ?_, ?_, ?_⟩ <;> intro σ p r t h <;> simp only [Cog20SameRegion, epv_tree] at h <;>
-    units_field_cog20
-
-/-- non-vacuity: a change of the units of mass, length and temperature that keeps a point in its region -/
-example : Cog20SameRegion ⟨2, 3, 1, 5, by norm_num, by norm_num, by norm_num, by norm_num⟩
-    ⟨1, 1 / 4, 0, 0, 0, 0, 3, 3, 0, 1, 1⟩ 2 1 := by
-  simp only [Cog20SameRegion, epv_tree, epv_cond, cog20SP, scale, factor, Dim.velocity, Dim.rate, Real.one_rpow,
-    Real.rpow_one, Real.rpow_zero, Real.rpow_neg_one, mul_one, one_mul]
-  norm_num
-
-/-- **Finding** (C08 is false for Cog20): the coded shock position `u0 (γ-1)/(4a) · t (1-2at)/(1-at)` is a
-length times a time, so a change of the unit of time moves a point across the shock.  Witness: γ = 3, u₀ = 1,
-a = 1/4, r = 2, t = 1 lies outside the shock (R = 4/3); with a time unit half as long (T = 2: u₀ = 1/2, a = 1/8,
-t = 2) the same point lies inside (R = 8/3). -/
-theorem finding_cog20_shock_position :
-    ¬ SameBranch cog20SP Cog20.leaf (Everywhere : Scaling → Cog20.P → ℝ → ℝ → Prop) := by
-  intro h
-  have := h ⟨1, 1, 2, 1, by norm_num, by norm_num, by norm_num, by norm_num⟩
-    ⟨1, 1 / 4, 0, 0, 0, 0, 3, 3, 0, 1, 1⟩ 2 1 trivial
-  simp only [epv_tree, epv_cond, cog20SP, scale, factor, Dim.velocity, Dim.rate, Real.one_rpow, Real.rpow_one,
-    Real.rpow_zero, Real.rpow_neg_one, mul_one, one_mul] at this
-  norm_num at this
 
 end EPV.C08
